@@ -77,13 +77,17 @@ def law_norm_mixed(ch):
     dx = D.dense_of(x)
     n = must(x.norm, what="norm")
     require(abs(complex(n).imag) == 0, "norm:complex-valued", f"{n!r}")
+    # the precision of the result is that of the least precise block
+    eps = max(float(np.finfo(np.asarray(b).dtype).eps)
+              for b in x.blocks.values())
     scalar_equal(n, np.linalg.norm(dx.ravel()), "norm:value", exact=False,
-                 K=dx.size, scale=float(np.abs(dx).max() or 1))
+                 K=dx.size, scale=float(np.abs(dx).max() or 1), eps=eps)
     v = sr.BlockVector({k: np.asarray(b).ravel()
                         for k, b in enumerate(x.blocks.values())})
     nv = must(v.norm, what="vector norm")
     scalar_equal(nv, np.linalg.norm(dx.ravel()), "norm:vector-value",
-                 exact=False, K=dx.size, scale=float(np.abs(dx).max() or 1))
+                 exact=False, K=dx.size, scale=float(np.abs(dx).max() or 1),
+                 eps=eps)
     kinds = {np.asarray(b).dtype.kind for b in x.blocks.values()}
     ch.mark_nontrivial(len(kinds) >= 2)
 
